@@ -474,3 +474,94 @@ def r10_affine_helper_precondition(ck, P):
                 ck.violation(R, f.name, 'call of %s' % c.callee, '%s hands its vector to the affine helper without having established that the vector\'s third component is 1.0: the helper neither scales the translation column by w nor returns the caller\'s w, so for w != 1 a wrong product is returned with TRUE' % f.name, c.loc())
     if n == 0:
         ck.incomplete(R, 'no call of a pixman_transform_point_31_16* helper found inside the library')
+
+
+def r11_product_indices(ck, P):
+    """T-TAB over the expression trees: in a matrix-vector product every term multiplies matrix[i][j] with component j of the vector
+    (its integer part, its fraction, or the whole component) - the column index of the matrix equals the index of the vector."""
+    R = ck.rule('C11-R11', 'in every function of pixman-matrix.c that multiplies a pixman_transform / pixman_f_transform with a vector, each product pairs matrix[i][j] with vector component j (through shifts, masks and widenings): the column index equals the component index in every term, for the integer and for the fractional half of a coordinate alike', floor=20)
+    u = P.units.get('pixman-matrix.c')
+    if u is None:
+        raise AnalysisBroken('pixman-matrix.c not compiled')
+    def classify(f, o, d=0):
+        """('m', i, j) | ('v', k) | None for the leaf a factor derives from"""
+        y = f.v(o)
+        if y is None or d > 8:
+            return None
+        if y.op == 'load':
+            p = f.path(y.a[0]); st = [str(s) for s in p[1]]
+            idx = [(int(s[1:-1]) if s[1:-1].lstrip('-').isdigit() else None) for s in st if s.startswith('[') and s.endswith(']')]
+            names = ' '.join(st)
+            if ('transform.matrix' in names or 'transform.m' in names) and len(idx) >= 2 and idx[-1] is not None:
+                return ('m', idx[-2] if idx[-2] is not None else -1, idx[-1])       # the row may be a loop variable, the column is what matters
+            if ('vector.vector' in names or 'vector_48_16_t.v' in names or 'vector.v' in names) and len(idx) >= 1 and idx[-1] is not None and 'transform' not in names:
+                return ('v', idx[-1])
+            return None
+        if y.op in ('sext', 'zext', 'trunc', 'ashr', 'lshr', 'and', 'fpext', 'fptrunc', 'sitofp'):
+            return classify(f, y.a[0], d + 1)
+        return None
+    for fn, f in sorted(u.functions.items()):
+        for x in f.insts():
+            if x.op not in ('mul', 'fmul'):
+                continue
+            a, b = classify(f, x.a[0]), classify(f, x.a[1])
+            if a is None or b is None or {a[0], b[0]} != {'m', 'v'}:
+                continue
+            m, v = (a, b) if a[0] == 'm' else (b, a)
+            ck.saw(f)
+            row = 'i' if m[1] < 0 else str(m[1])
+            where = '%s %s: matrix[%s][%d] * v[%d]' % (fn, x.loc(), row, m[2], v[1])
+            if m[2] == v[1]:
+                ck.ok(R, where)
+            else:
+                ck.violation(R, fn, 'term at %s' % x.loc(), '%s multiplies matrix[%s][%d] with component %d of the vector: the term belongs to column %d, so the product returned is not the matrix applied to the vector whenever that part of component %d is non-zero' % (fn, row, m[2], v[1], v[1], v[1]), x.loc())
+
+
+def r12_inverse_guarded(ck, P):
+    """T-GRD: a helper that divides by its argument is only called where that argument is known to be non-zero - for that argument by itself."""
+    R = ck.rule('C11-R12', 'every call of a helper that divides by its parameter without testing it (fixed_inverse: 1/x in 16.16) is dominated by a test that this very argument is non-zero: a guard that only excludes "all factors are zero" lets a single zero factor through to the division (SIGFPE) and reports success for a non-invertible scale', floor=2)
+    u = P.units.get('pixman-matrix.c')
+    if u is None:
+        raise AnalysisBroken('pixman-matrix.c not compiled')
+    # helpers: single-block functions whose parameter is the divisor of an sdiv/udiv
+    helpers = {}
+    for fn, f in u.functions.items():
+        for x in f.insts():
+            if x.op in ('sdiv', 'udiv'):
+                y = f.v(x.a[1]); o = x.a[1]
+                while y is not None and y.op in ('sext', 'zext', 'trunc'):
+                    o = y.a[0]; y = f.v(o)
+                if o[0] == 'a' and not any(t.op == 'icmp' for t in f.insts()):
+                    helpers[fn] = o[1]
+    n = 0
+    for fn, f in sorted(u.functions.items()):
+        for c in f.calls():
+            if c.callee not in helpers:
+                continue
+            n += 1; ck.saw(f)
+            arg = c.a[helpers[c.callee]]
+            base = arg
+            y = f.v(base)
+            while y is not None and y.op in ('sext', 'zext', 'trunc'):
+                base = y.a[0]; y = f.v(base)
+            ok = False
+            for t, s in f.guard_edges(c.bb.id):
+                cc = f.v(t.a[0]) if t.a else None
+                if cc is None or cc.op != 'icmp' or cc.d['p'] not in ('eq', 'ne'):
+                    continue
+                nonzero_edge = (cc.d['p'] == 'ne') == (t.d['succ'][0] == s)
+                ops = []
+                for q in cc.a:
+                    z = f.v(q)
+                    while z is not None and z.op in ('sext', 'zext', 'trunc'):
+                        q = z.a[0]; z = f.v(q)
+                    ops.append(q)
+                if nonzero_edge and base in ops and any(q[0] == 'c' and int(q[1]) == 0 for q in ops):
+                    ok = True
+            where = '%s -> %s (%s) at %s' % (fn, c.callee, f.params[base[1]][0] if base[0] == 'a' else 'value', c.loc())
+            if ok:
+                ck.ok(R, where)
+            else:
+                ck.violation(R, fn, 'call of %s at %s' % (c.callee, c.loc()), '%s calls %s, which divides by its argument, on a path on which that argument has not been tested against 0 by itself: with exactly this factor zero the division traps, and without the reverse matrix the function reports success for a scale that has no inverse' % (fn, c.callee), c.loc())
+    if n == 0:
+        ck.incomplete(R, 'no call of a dividing helper found in pixman-matrix.c')
